@@ -139,7 +139,8 @@ func (d *tDecoder) Decode(b []byte, base unsafe.Pointer, sd *structDesc, maxdept
 	}
 	for _, fid := range sd.requiredFieldIDs {
 		if !bs.test(fid) {
-			return i, newRequiredFieldNotSetException(lookupFieldName(sd.rt, sd.GetField(fid).Offset))
+			// by name, not by offset: a zero-size field shares its offset with the next field
+			return i, newRequiredFieldNotSetException(sd.GetField(fid).Name)
 		}
 	}
 	if ufs != nil && ufs.Size() > 0 {
